@@ -353,6 +353,39 @@ type runner struct {
 	r     *rand.Rand
 	n     int
 	lines int
+	// shared package state (lookup tables, constants): digest at start, checked every snapEvery lines
+	snap0    uint64
+	snapInit bool
+	snapFrom int
+}
+
+const snapEvery = 40
+
+// snapCheck compares the package's shared tables and constants with their state at the start of the
+// stream; a change is reported once, for the window of lines in which it happened (C06).
+func (rn *runner) snapCheck(force bool) {
+	if !rn.snapInit {
+		rn.snap0, _ = apd.VerifSnapshot()
+		rn.snapInit = true
+		rn.snapFrom = 1
+		return
+	}
+	if !force && rn.lines%snapEvery != 0 {
+		return
+	}
+	if rn.lines < rn.snapFrom {
+		return
+	}
+	now, _ := apd.VerifSnapshot()
+	st := "same"
+	if now != rn.snap0 {
+		st = "changed"
+		rn.snap0 = now // report each change once
+	}
+	from := rn.snapFrom
+	rn.snapFrom = rn.lines + 2
+	rn.lines++
+	fmt.Fprintf(rn.w, "%d snapshot %d %d => %s\n", rn.lines, from, rn.lines-1, st)
 }
 
 func (rn *runner) ctxCase(op string, c *apd.Context, x, y *apd.Decimal, iarg int32) {
@@ -389,6 +422,7 @@ func (rn *runner) ctxCase(op string, c *apd.Context, x, y *apd.Decimal, iarg int
 }
 
 func (rn *runner) emit(op, input string, c *apd.Context, res callResult) {
+	rn.snapCheck(false)
 	rn.lines++
 	id := strconv.Itoa(rn.lines)
 	switch {
@@ -546,6 +580,7 @@ func main() {
 			os.Exit(2)
 		}
 	}
+	rn.snapCheck(true)
 	w.Flush()
 	if *statsPath != "" {
 		rn.st.Rule = "cases drawn from one PRNG (seed) by structure-directed generators; a case is non-trivial when the call rounded, clamped, went subnormal, overflowed, returned a special value or an error; distinct = distinct input lines among those"
